@@ -548,11 +548,28 @@ static void exit_big_pattern(ThreadCtx& t, int slot) {
   }
   for (auto& b : a) t.mine.push_back(b);
 }
+// an adopting allocation by a heap that can be destroyed: a successor thread (abandoned segments of its predecessors are waiting) creates a heap with mi_heap_new, allocates
+// three 12 MiB blocks from it -- at most two fit a segment, so fresh segments are needed, which is when abandoned ones are considered for adoption -- and destroys the heap.
+// The destroy must release the heap's own blocks only; blocks that terminated threads left behind are still held (and verified) by the other threads.
+// (Not with a per-thread segment target: forced abandonment takes pages away from first-class heaps, known finding K3.)  Added for seeded change C09-r7-3.
+static std::atomic<uint64_t> g_destroyable_patterns(0);
+static void exit_destroyable_heap_pattern(ThreadCtx& t) {
+  (void)t;
+  vf_cur_what = "destroyable heap needs fresh segments";
+  mi_heap_t* D = mi_heap_new();
+  if (D == nullptr) return;
+  for (int i = 0; i < 3; i++) { void* q = mi_heap_malloc(D, 12 * MiB); if (q != nullptr) memset(q, 0x3c, 64); }
+  for (int i = 0; i < 40; i++) { void* q = mi_heap_malloc(D, 48 + (size_t)i * 24); if (q != nullptr) memset(q, 0x3d, 48); }
+  vf_cur_what = "mi_heap_destroy of a heap that needed fresh segments";
+  mi_heap_destroy(D);
+  g_destroyable_patterns.fetch_add(1, std::memory_order_relaxed);
+}
 static void exit_body(void* arg) {
   ExitArg* a = (ExitArg*)arg; ThreadCtx& t = *a->t;
   int slot = a->slot;
   if (C.subprocs > 1) { mi_subproc_add_current_thread(g_subproc[slot % 2]); t.sp = 1 + (slot % 2); }
   int T = C.threads;
+  if (a->gen >= 1 && mi_option_get(mi_option_target_segments_per_thread) <= 0 && vf_rng_chance(&t.rng, 1, 4)) exit_destroyable_heap_pattern(t);
   if (mi_option_get(mi_option_target_segments_per_thread) > 0 && C.threads >= 2 && C.subprocs <= 1 && vf_rng_chance(&t.rng, 1, 3)) exit_big_pattern(t, slot);
   for (uint64_t op = 0; op < C.ops; op++) {
     vf_cur_op = op;
@@ -718,11 +735,11 @@ static void result_body(FILE* f) {
   fprintf(f, "\"scenario\":\"%s\",\"variant\":\"%s\",\"seed\":%llu,\"threads\":%d,\"hash\":\"%016llx\",", C.scenario.c_str(), C.variant.c_str(), (unsigned long long)C.seed, C.threads,
           (unsigned long long)(st.sched_hash ^ (g_allocs.load() * 1000003ull) ^ (g_frees_remote.load() << 20)));
   fprintf(f, "\"mt\":{\"allocs\":%llu,\"alloc_null\":%llu,\"local_frees\":%llu,\"remote_frees\":%llu,\"sends\":%llu,\"recvs\":%llu,\"verified\":%llu,\"collects\":%llu,\"thread_starts\":%llu,\"thread_exits\":%llu,"
-             "\"heap_deletes\":%llu,\"claims\":%llu,\"claims_failed\":%llu,\"events\":%llu,\"max_live_in_replay\":%llu,\"abandoned_blocks_left\":%zu,\"final_checked\":%d,\"probe_single\":%zu,\"probe_multi\":%zu,\"probe_whole\":%d,\"subproc_allocs_checked\":%llu,\"arena_inuse_end\":%ld},",
+             "\"heap_deletes\":%llu,\"claims\":%llu,\"claims_failed\":%llu,\"events\":%llu,\"max_live_in_replay\":%llu,\"abandoned_blocks_left\":%zu,\"final_checked\":%d,\"probe_single\":%zu,\"probe_multi\":%zu,\"probe_whole\":%d,\"subproc_allocs_checked\":%llu,\"destroyable_heap_adoption_patterns\":%llu,\"arena_inuse_end\":%ld},",
           (unsigned long long)g_allocs.load(), (unsigned long long)g_alloc_null.load(), (unsigned long long)g_frees_local.load(), (unsigned long long)g_frees_remote.load(), (unsigned long long)g_sends.load(),
           (unsigned long long)g_recvs.load(), (unsigned long long)g_verified.load(), (unsigned long long)g_collects.load(), (unsigned long long)g_thread_starts.load(), (unsigned long long)g_thread_exits.load(),
           (unsigned long long)g_heap_deletes.load(), (unsigned long long)g_claims.load(), (unsigned long long)g_claim_fail.load(), (unsigned long long)g_events, (unsigned long long)g_max_live_replay,
-          g_abandoned_left, g_final_checked, g_probe_single, g_probe_multi, g_probe_whole, (unsigned long long)g_subproc_checked, g_arena_inuse_end);
+          g_abandoned_left, g_final_checked, g_probe_single, g_probe_multi, g_probe_whole, (unsigned long long)g_subproc_checked, (unsigned long long)g_destroyable_patterns.load(), g_arena_inuse_end);
   fprintf(f, "\"sched\":{\"mode\":%d,\"policy\":%d,\"points\":%llu,\"switches\":%llu,\"forced\":%llu,\"spurious_cas\":%llu,\"delays\":%llu,\"hash\":\"%016llx\",\"budget_exceeded\":%d,\"threads_created\":%d,\"delayed_stores\":%llu,\"loads_overtaking\":%llu},",
           C.sched.mode, C.sched.policy, (unsigned long long)st.points, (unsigned long long)st.switches, (unsigned long long)st.forced_switches, (unsigned long long)st.spurious, (unsigned long long)st.delays,
           (unsigned long long)st.sched_hash, st.budget_exceeded, st.threads_created, (unsigned long long)st.delayed_stores, (unsigned long long)st.loads_overtaking);
